@@ -246,6 +246,9 @@ class Built:
           raise KeyError('boom ' + pid)
         if r == 'BAD':
           return 42
+        if r in ('BAD0', 'BADF', 'BADS', 'BADL'):
+          # falsy values that are neither None nor a PhaseResult
+          return {'BAD0': 0, 'BADF': False, 'BADS': '', 'BADL': []}[r]
         return {'C': None, 'CC': PR.CONTINUE, 'F': PR.FAIL_AND_CONTINUE,
                 'K': PR.SKIP, 'S': PR.STOP, 'U': PR.FAIL_SUBTEST,
                 'R': PR.REPEAT}[r]
@@ -279,6 +282,10 @@ class Built:
     if ri is not None:
       def run_if(_ri=ri):
         log.add('run_if', pid)
+        if isinstance(_ri, list):      # stateful: one entry per evaluation
+          # counted in self.ctr, which callers clear between runs of one Built
+          k = ctr[('run_if', pid)] = ctr.get(('run_if', pid), 0) + 1
+          _ri = _ri[min(k, len(_ri)) - 1]
         if _ri == 'raise':
           raise RuntimeError('run_if boom')
         return bool(_ri)
@@ -576,6 +583,8 @@ class Model:
       last = count >= limit
       recorded = None
       ri = beh.get('run_if')
+      if isinstance(ri, list):
+        ri = ri[min(count, len(ri)) - 1]
       if ri == 'raise':
         final, exc = 'EXC', 'RuntimeError'                   # (r10)
       elif ri is False:
@@ -614,9 +623,10 @@ class Model:
       r = r[min(n, len(r) - 1)]
     res = {'C': 'CONTINUE', 'CC': 'CONTINUE', 'F': 'FAIL_AND_CONTINUE',
            'K': 'SKIP', 'S': 'STOP', 'U': 'FAIL_SUBTEST', 'R': 'REPEAT',
-           'X': 'EXC', 'XK': 'EXC', 'BAD': 'EXC', 'T': 'TIMEOUT'}[r]
-    exc = {'X': 'Boom', 'XK': 'KeyError',
-           'BAD': 'InvalidPhaseResultError'}.get(r)
+           'X': 'EXC', 'XK': 'EXC', 'BAD': 'EXC', 'T': 'TIMEOUT',
+           'BAD0': 'EXC', 'BADF': 'EXC', 'BADS': 'EXC', 'BADL': 'EXC'}[r]
+    exc = {'X': 'Boom', 'XK': 'KeyError'}.get(
+        r, 'InvalidPhaseResultError' if r.startswith('BAD') else None)
     if res == 'FAIL_SUBTEST' and not sub:
       res, exc = 'EXC', 'InvalidPhaseResultError'            # (r7)
     hit_limit = res == 'REPEAT' and last
@@ -889,7 +899,7 @@ def gen_phase(rng, ids, rich=True):
   pid = 'p%d' % next(ids)
   beh = {}
   beh['r'] = rng.choice(['C', 'C', 'C', 'C', 'CC', 'F', 'K', 'S', 'U', 'X',
-                         'R', ['R', 'C'], ['R', 'R', 'F'], 'BAD'])
+                         'R', ['R', 'C'], ['R', 'R', 'F'], 'BAD', 'BAD0', 'BADS'])
   if rng.random() < .3:
     beh['m'] = rng.choice(['pass', 'fail', 'unset', 'marginal'])
   if rng.random() < .35:
@@ -899,7 +909,8 @@ def gen_phase(rng, ids, rich=True):
                  for _ in range(n)]
   if rich:
     if rng.random() < .1:
-      beh['run_if'] = rng.choice([False, False, True, 'raise'])
+      beh['run_if'] = rng.choice([False, False, True, 'raise', [True, False],
+                                  [True, False, True], [False, True]])
     if rng.random() < .2:
       beh['opts'] = rng.choice([
           {'force_repeat': True}, {'repeat_on_measurement_fail': True},
